@@ -40,6 +40,7 @@ pub open spec fn lp_enum_ref(m: Map<usize, F64>, h: Seq<(&usize, &F64)>) -> bool
                   + '''// Option<&String>::cloned (T4)
 #[verifier::external_body] pub fn opt_cloned(o: Option<&String>) -> (r: Option<String>) ensures o is None ==> r is None, o is Some ==> r == Some(*o->Some_0) { o.cloned() }
 ''', 'qplib VarType, QplibFile')
+    asm.raw(qplib.OBJ_SPEC, 'convert_objective: the linear part')
     asm.raw('} // mod lib\npub mod units {\n' + common.UNITS_USES + 'broadcast use super::lib::ax_pair_key_model;\n')
     asm.raw('''impl Zero for Quadratic {
     #[verifier::external_body] fn zero() -> Self { unimplemented!() }
@@ -50,7 +51,7 @@ pub open spec fn lp_enum_ref(m: Map<usize, F64>, h: Seq<(&usize, &F64)>) -> bool
 }
 ''', 'assumed callee contract (Quadratic::is_zero)')
     asm.stubs.append(dict(unit='Zero::is_zero for Quadratic', proved_in='assumed (closure over Option::is_none_or; the same text is assumed in C02); exercised by the bounded stand-in'))
-    for u in (qplib.to_quadratic(), qplib.to_linear(), qplib.wrap_function(), qplib.convert_sense(), qplib.convert_dvars()):
+    for u in (qplib.to_quadratic(), qplib.to_linear(), qplib.wrap_function(), qplib.convert_sense(), qplib.convert_dvars(), qplib.convert_objective()):
         asm.unit(u)
     asm.raw('} // mod units\n')
     asm.guard(common.guard_fn('c19', 'broadcast use ax_pair_key_model;', uses='use super::lib::*;'), 'vacuity: axioms')
@@ -64,8 +65,9 @@ proof fn vacuity_pre(m: Map<(usize, usize), F64>, e: Seq<((usize, usize), F64)>)
         trusted_base=common.TRUSTED_COMMON + common.T4_COLLECTIONS + [
             'T4: HashMap::iter() yields each entry exactly once in SOME order; (usize, usize) obeys the key model',
             'T5 ASSUMED: Zero::is_zero for Quadratic',
+            'std helper contracts: Vec::retain as vec_retain (the items on which the closure answers true, in order); field assignment through a Vec index `v[i].f = x` is written as clone / assign / Vec::set (R33); `(0..n).map(C).collect()` is verified through the vstd specifications of Range and collect',
         ],
         assumptions=common.A1,
         not_covered=['the section-by-section text reader (QplibFile::from_lines, type codes, counts, numbers, line numbers in errors): str code outside Verus and CBMC',
-                     'convert_objective default-b0 expansion (Vec::retain, dense expansion), convert_constraints (format!-built names, two pushes per row), apply_infinity_threshold (closures over &mut): bounded stand-in only'],
+                     'convert_constraints (format!-built names, two pushes per row), apply_infinity_threshold (closures over &mut): bounded stand-in only'],
     )
